@@ -94,8 +94,12 @@ def run(ctx):
     for fresh in (False, True):
         sch += schedules(ctx, 2, 1, fresh)
     sch += schedules(ctx, 2, 2, False, simulate=60 if q else 600, seed=ctx.seed)
-    sch += schedules(ctx, 3, 1, False, simulate=80 if q else 1500, seed=ctx.seed + 1)
-    sch += schedules(ctx, 3, 2, False, simulate=20 if q else 400, seed=ctx.seed + 2)
+    sch += schedules(ctx, 3, 1, False, simulate=80 if q else 4000, seed=ctx.seed + 1)
+    sch += schedules(ctx, 3, 2, False, simulate=20 if q else 800, seed=ctx.seed + 2)
+    if not q:
+        sch += schedules(ctx, 4, 1, False, simulate=1500, seed=ctx.seed + 3)
+        sch += schedules(ctx, 4, 2, False, simulate=500, seed=ctx.seed + 4)
+        sch += schedules(ctx, 3, 1, True, simulate=300, seed=ctx.seed + 5)
     uniq = {}
     for s in sch:
         uniq[json.dumps(s, sort_keys=True)] = s
@@ -121,7 +125,7 @@ def run(ctx):
     ctx.samples += res.get("samples", [])[:4]
     viols = res.get("violations", [])
     # direction B: validate the recorded traces against the specification
-    bad = validate_traces(ctx, trace, 3)
+    bad = validate_traces(ctx, trace, 4)
     if bad:
         pos, what = bad
         ev = [json.loads(x) for x in open(trace)]
@@ -139,7 +143,7 @@ def run(ctx):
         r2, t2 = run_schedules(ctx, [v["case"]], "confirm%d" % len(ctx.violations))
         ok = any(x["key"] == key for x in r2.get("violations", []))
         if not ok and key.startswith("c14/trace-rejected"):
-            ok = validate_traces(ctx, t2, 3) is not None
+            ok = validate_traces(ctx, t2, 4) is not None
         if not ok and key.startswith("c14/data-race"):
             # the detector reports each racing pair once per process; a fresh process re-reports it
             ok = any(x["key"].startswith("c14/data-race") for x in r2.get("violations", []))
